@@ -80,7 +80,7 @@ def check_C01(run):
     d += rsumm.get("generated", 0) + ssumm.get("generated", 0) + fsumm.get("generated", 0)
     run.assumptions = ASSUME + ["Go's type checker is the observation (not re-specified); the spec contributes the generator-controlled causes (stale call edges, import alias shadowing)"]
     return run.finish("every replayed program of the calls family generated by the real tool, written, compiled per program and asserted to implement the declared interface; "
-                      "plus every generating scenario of the rules value universe and of the struct family, each compiled in a file of its own; plus 108 programs over the output formats struct / function / variables (API assertion in the format's shape, executed); distinct = distinct (program, directory name, outcome)", n, d)
+                      "plus every generating scenario of the rules value universe and of the struct family, each compiled in a file of its own; plus 216 programs over the output formats struct / function / variables (API assertion in the format's shape, executed); distinct = distinct (program, directory name, outcome)", n, d)
 
 
 def check_C06(run):
